@@ -137,6 +137,22 @@ def resStr : Result → String
 
 def thetaStr (θ : List Int) : String := ",".intercalate (θ.map toString)
 
+/-- number of constraints carried by the solution node at which the evaluation ends (classification aid only) -/
+def leafGuards : Tree → List Int → Option Nat
+  | .bottom, _ => none
+  | .sol arts cons _, env =>
+    match evalArts arts env with
+    | none => none
+    | some env' => if evalCons cons env' == some true then some cons.length else none
+  | .dec arts cons t f, env =>
+    match evalArts arts env with
+    | none => none
+    | some env' =>
+      match evalCons cons env' with
+      | some true => leafGuards t env'
+      | some false => leafGuards f env'
+      | none => none
+
 structure Cfg where
   box : Nat := 6
   window : Nat := 64
@@ -201,6 +217,7 @@ def judgeTree (cfg : Cfg) (ln : Nat) (pb : Prob) (rt : RefTable) (sv : Solved) (
   let mut kinds : List String := []
   let mut badZero := 0          -- mismatching valuations with at least one zero parameter
   let mut badInfeasible := 0    -- mismatching valuations where the tree yields a point outside the feasible region
+  let mut badGuarded := 0       -- … and the solution node reached carries constraints of its own
   let mut details : List String := []
   for g in rt.groups do
     -- a group is judged at its valuations; with a big parameter only a mismatch that persists at
@@ -225,13 +242,16 @@ def judgeTree (cfg : Cfg) (ln : Nat) (pb : Prob) (rt : RefTable) (sv : Solved) (
       if !kinds.contains kind then kinds := kinds ++ [kind]
       if θ.any (· == 0) then badZero := badZero + 1
       match r with
-      | .point p => if !pb.P.feasibleB θ p then badInfeasible := badInfeasible + 1
+      | .point p =>
+        if !pb.P.feasibleB θ p then
+          badInfeasible := badInfeasible + 1
+          if (leafGuards tree θ).getD 0 > 0 then badGuarded := badGuarded + 1
       | _ => pure ()
       if details.length < 40 then
         details := details ++ [s!"detail {ln} theta={thetaStr θ} tree={resStr r} ref={ansStr a}"]
   if nbad > 0 then
     let obl := if sv.status == "UNF" then "unfeasible-but-feasible" else "eval"
-    IO.println s!"MISMATCH {ln} {obl} bad={nbad} evals={evals} kinds={",".intercalate kinds} bad_with_zero_param={badZero} bad_infeasible_point={badInfeasible} scoped={isScoped} nodes={tree.size} arts={tree.numArts} big={pb.big.isSome}"
+    IO.println s!"MISMATCH {ln} {obl} bad={nbad} evals={evals} kinds={",".intercalate kinds} bad_with_zero_param={badZero} bad_infeasible_point={badInfeasible} bad_infeasible_at_guarded_leaf={badGuarded} scoped={isScoped} nodes={tree.size} arts={tree.numArts} big={pb.big.isSome}"
     for d in details do IO.println d
     return false
   if !isScoped then
